@@ -192,7 +192,9 @@ func goroutines() []gor {
 
 // deadlocked: among the goroutines that did not exist before the call, the one running
 // DirectoryOutputHandler.Load sits in WaitGroup.Wait and every download goroutine of
-// loadDirectoryRecursive sits in a channel send: nobody is left who could receive.
+// loadDirectoryRecursive sits in a channel send (plain, or a select without a ready case):
+// nobody is left who could receive.  (The download goroutines offer their error with a
+// non-blocking send, so this is not expected to happen; the detector stays as the oracle.)
 func deadlocked(old map[string]bool) bool {
 	waiting, senders := false, 0
 	for _, g := range goroutines() {
@@ -200,7 +202,7 @@ func deadlocked(old map[string]bool) bool {
 			continue
 		}
 		if strings.Contains(g.text, "loadDirectoryRecursive.func1") {
-			if g.state != "chan send" {
+			if g.state != "chan send" && g.state != "select" {
 				return false
 			}
 			senders++
